@@ -107,6 +107,20 @@ class C20(Check):
         wl = wprog.line([("file", b"w0", Opts(large=True)), ("write", b"large flag placeholder"), ("aligned", b"w1", Opts(), 64), ("write", b"aligned data"),
                          ("extra", b"w2", Opts(method=8)), ("write", struct.pack("<HH", 0xcafe, 3) + b"xyz"), ("endextra",), ("write", b"after extra " * 9), ("finish",)])
         W = wprog.final_bytes(run_lines(exe, [wl], shards=1)[0])[1]
+        # raw opens and data_start() in interleavings (implementation only: ops 3 and 4 are not in the handle model): a
+        # handle that opens an entry raw, asks for data_start() and reads must see what it sees alone whether or not
+        # another clone opens the same entry (normally or raw) before, between or after -- entries whose local extra
+        # field differs from the central one, where an offset guessed from the central record would be wrong
+        raw_sets = [(X, [[(4, 0), (3, 0), (1, 40), (3, 0)], [(0, 0), (1, 20)]]),
+                    (X, [[(4, 1), (3, 0), (1, 600)], [(0, 1), (1, 600), (3, 0)]]),
+                    (X, [[(4, 3), (3, 0), (1, 5)], [(4, 3), (3, 0)], [(0, 3), (3, 0)]])]
+        if W:
+            raw_sets += [(W, [[(4, 0), (3, 0), (1, 40), (3, 0)], [(0, 0), (1, 20)]]),
+                         (W, [[(4, 2), (3, 0), (1, 200)], [(0, 2), (3, 0), (1, 200)]])]
+        for data, scripts in raw_sets:
+            alone = run_lines(exe, [line(data, None, [(0,) + s_ for s_ in sc]) for sc in scripts], shards=1)
+            for sched in interleavings(scripts):
+                cases.append((line(data, None, sched), dict(k="il", sched=sched, alone=alone, nh=len(scripts), impl_only=True)))
         for data, pw, steps in self._ds_sets_builder(X):
             cases.append((line(data, pw, steps), dict(k="ds", impl_only=True)))
         for data, pw in ((X, None), (W, None), (A, None), (B, b"pw")):
